@@ -658,6 +658,12 @@ def build_cases(tier, seed):
     info['pure_lattice'] = {'frames': nfr, 'angles': len(ANGLES), 'states': nfr * nfr * len(ANGLES), 'embeddings': ['2x2', '2x3', '3x2']}
     for fam in ('bell_diagonal', 'werner_line', 'structured'):
         cases.append({'kind': 'family', 'family': fam})
+    # maximally entangled states in every local frame of an Euler-angle grid: C = 1 exactly, so every rounding direction of the
+    # closed forms at the upper end of their range is exercised (C = 1 + 1ulp must not make E_F / GME NaN)
+    for b in range(4):
+        for ia in range(8):
+            cases.append({'kind': 'family', 'family': 'bell_lu_grid', 'bell': b, 'ia': ia})
+    info['bell_lu_grid'] = '4 Bell states x (8x8x8 Euler grid on qubit A) x (4x4 grid on qubit B) = 32768 maximally entangled states'
     depth = 2 if tier == 'quick' else 3
     for i in range(N_COMP):
         cases.append({'kind': 'search', 'init': i, 'depth': depth})
@@ -755,6 +761,22 @@ def run_case(case, out, env):
             R = Ref([(0.7, np.array([s, 0, 0, s], dtype=np.complex128)), (0.3, eye[1])])
             check_closed(numqi, out, R, 'family', '0.7 Phi+ + 0.3 |01><01| (float64 dtype)', rho=R.rho.real.copy())
             out.outcome(('real', round(R.C, 7)), nontrivial=True)
+        if fam == 'bell_lu_grid':
+            def su2(a, b_, g):
+                return np.array([[np.cos(b_ / 2) * np.exp(-0.5j * (a + g)), -np.sin(b_ / 2) * np.exp(-0.5j * (a - g))],
+                                 [np.sin(b_ / 2) * np.exp(0.5j * (a - g)), np.cos(b_ / 2) * np.exp(0.5j * (a + g))]])
+            v0 = B[case['bell']]
+            a = 2 * np.pi * (case['ia'] + 0.31) / 8
+            for ib in range(8):
+                for ig in range(8):
+                    UA = su2(a, np.pi * (ib + 0.47) / 8, 2 * np.pi * (ig + 0.13) / 8)
+                    for jb in range(4):
+                        for jg in range(4):
+                            UB = su2(0.0, np.pi * (jb + 0.29) / 4, 2 * np.pi * (jg + 0.71) / 4)
+                            v = np.kron(UA, UB) @ v0
+                            R = Ref([(1.0, v / np.linalg.norm(v))])
+                            check_closed(numqi, out, R, 'family', 'Bell state %d in local frame (ia=%d,ib=%d,ig=%d; jb=%d,jg=%d)' % (case['bell'], case['ia'], ib, ig, jb, jg))
+            out.outcome(('bell_lu_grid', case['bell'], case['ia']), nontrivial=True)
         out.trace()
         out.sample = {'kind': 'family', 'family': fam}
     elif kind == 'search':
